@@ -4,13 +4,16 @@
 (* variant, data, seed, hyper-parameters) together with the PLAN of        *)
 (* environments it must be run in: plan = <<threads, repetitions>> pairs   *)
 (* (threads = 0: rayon's global pool), each executed in nproc fresh        *)
-(* processes.  Seven families:                                              *)
+(* processes.  Eight families:                                              *)
 (*   tie  : every small labelled lattice data set (sorted multisets of     *)
 (*          (x, z, label) rows, labels an initial segment) x the           *)
 (*          estimators whose result can hinge on a tie / on map order      *)
 (*   frac : five fixed points x every 3-class labelling x decision trees,   *)
 (*          incremental Gaussian naive Bayes                               *)
 (*          (class fractions that are not dyadic: order-dependent sums)    *)
+(*   ulp  : identical-feature samples of 3-4 classes whose f32 weights lie  *)
+(*          0..3 ulps above 1.0 / 0.1 / 0.3 (near-ties between class        *)
+(*          weights) x trees, label frequencies, weighted isotonic          *)
 (*   blob : every estimator variant of the catalogue x generated data sets *)
 (*   builder : 21 estimators whose parameter builders have setters x        *)
 (*          generated data, each run with four builder histories (fresh,    *)
@@ -47,7 +50,7 @@ BigSets  == IF Tier = "quick" THEN {<<1500, 3, 4, 1>>, <<20000, 2, 3, 2>>}
 \* (no row events) but reports every reduction and the value it produced
 HookBigSets == IF Tier = "quick" THEN {<<20000, 2, 3, 2>>} ELSE {<<20000, 2, 3, 2>>, <<40000, 2, 5, 5>>, <<9000, 3, 4, 6>>}
 
-NoData == [g |-> "none", x |-> <<>>, y |-> <<>>, n |-> 0, d |-> 0, c |-> 0, seed |-> 0]
+NoData == [g |-> "none", x |-> <<>>, y |-> <<>>, w |-> <<>>, n |-> 0, d |-> 0, c |-> 0, seed |-> 0]
 Blob(b) == [NoData EXCEPT !.g = "blobs", !.n = b[1], !.d = b[2], !.c = b[3], !.seed = b[4]]
 
 \* ---- lattice data: kinds of rows indexed 1..K, a data set is a non-decreasing index sequence
@@ -70,8 +73,25 @@ Frac(y) == [NoData EXCEPT !.g = "lat", !.x = FracX, !.y = y, !.n = 5, !.d = 2]
 FracEsts == {<<"tree", "gini", FALSE, FALSE>>, <<"tree", "entropy", FALSE, FALSE>>, <<"tree_str", "gini", FALSE, FALSE>>,
              <<"nb_incr", "gaussian", FALSE, FALSE>>}
 
+\* ---- "ulp" family: near-ties between class weights.  m samples with IDENTICAL features and m
+\* different labels (a node no split can separate) whose f32 sample weights lie 0..3 ulps above a base
+\* value (w = <<base code, ulps>>: 1 -> 1.0, 2 -> 0.1f32, 3 -> 0.3f32), plus a clean class of two
+\* samples elsewhere.  Weights 1, 1+ulp, 1+2ulp form an "equal up to rounding" chain that is not
+\* transitive: any tolerance-based tie test makes the heaviest class depend on the visiting order.
+UlpData(m, base, off) ==
+  [NoData EXCEPT !.g = "lat",
+                 !.x = [p \in 1..(m + 2) |-> IF p <= m THEN <<0, 0>> ELSE <<1, 0>>],
+                 !.y = [p \in 1..(m + 2) |-> IF p <= m THEN p - 1 ELSE m],
+                 !.w = [p \in 1..(m + 2) |-> IF p <= m THEN <<base, off[p]>> ELSE <<base, 0>>],
+                 !.n = m + 2, !.d = 2]
+UlpBases == IF Tier = "quick" THEN {1, 2} ELSE {1, 2, 3}
+UlpOffs(m) == IF m = 3 \/ Tier # "quick" THEN [1..m -> 0..3] ELSE [1..m -> 0..2]
+UlpEstsAll == {<<"tree", "gini", FALSE, FALSE>>, <<"tree_str", "gini", FALSE, FALSE>>}
+UlpEsts3   == UlpEstsAll \cup {<<"tree", "entropy", FALSE, FALSE>>, <<"label_freq", "", FALSE, FALSE>>, <<"isotonic", "", FALSE, FALSE>>}
+
 \* ---- plans
 PlanSeq  == << <<1, 2>>, <<4, 1>> >>                                            \* sequential estimators
+PlanUlp  == << <<1, 4>>, <<4, 2>> >>      \* 12 runs: the visiting order of a 3-4 entry hash map has to vary
 PlanFull == << <<1, 1>>, <<2, 2>>, <<3, 1>>, <<8, 1>>, <<16, 1>>, <<0, 1>> >>   \* rayon users
 PlanAll  == [q \in 1..17 |-> IF q = 17 THEN <<0, 1>> ELSE <<q, 1>>]              \* every pool size 1..16 + global pool
 \* big family: every pool size is also repeated (the same pool schedules the same loop differently)
@@ -114,7 +134,7 @@ Catalogue == {
   <<"countvec", "plain", FALSE, FALSE>>, <<"countvec", "maxfeat", FALSE, FALSE>>,
   <<"countvec", "bigram", FALSE, FALSE>>, <<"countvec", "df", FALSE, FALSE>>,
   <<"tfidf", "plain", FALSE, FALSE>>, <<"tfidf", "maxfeat", FALSE, FALSE>>,
-  <<"pearson", "", FALSE, FALSE>> }
+  <<"pearson", "", FALSE, FALSE>>, <<"label_freq", "", FALSE, FALSE>> }
 
 \* estimators whose answer can hinge on a tie or on the iteration order of a map
 TieSensitive == {
@@ -159,6 +179,8 @@ Init ==
         /\ k = 2 \/ e[1] \in {"hier", "kmeans"}          \* k matters for the clusterers only
         /\ case = Mk("tie", e, Lat(s), 7, k, PlanSeq, 2, FALSE)
   \/ \E y \in FracSets, e \in FracEsts : case = Mk("frac", e, Frac(y), 7, 2, PlanSeq, 2, FALSE)
+  \/ \E m \in {3, 4}, base \in UlpBases : \E off \in UlpOffs(m), e \in (IF m = 3 THEN UlpEsts3 ELSE UlpEstsAll) :
+        case = Mk("ulp", e, UlpData(m, base, off), 7, 2, PlanUlp, 2, FALSE)
   \/ \E e \in Catalogue, b \in BlobSets : \E sd \in SeedsOf(e) :
         case = Mk("blob", e, Blob(b), sd, 3, IF e[3] THEN PlanFull ELSE PlanSeq, 2, FALSE)
   \/ \E e \in BuilderEsts, b \in BuilderSets : \E sd \in SeedsOf(e) :
